@@ -260,19 +260,19 @@ def run(ctx):
     from vf.tlaval import parse_state
     paths = list(tlc.transition_cover(nodes, edges, inits, rng=ctx.rng, max_len=16))
     ctx.cov["graph"] = {"nodes": len(nodes), "edges": len(edges), "cover_paths": len(paths)}
-    paths = ctx.rng.sample(paths, min(len(paths), 50 if q else 2500))
+    paths = ctx.rng.sample(paths, min(len(paths), 50 if q else 1500))
     for p in paths:
         behs.append(beh_to_py([(act, parse_state(nodes[nid])) for act, nid in p]))
     ctx.cov["graph"]["replayed_paths"] = len(paths)
     ncover = len(paths)
-    sims, res = tlc.simulate(ctx, "PerFileGraphMC", cfg_text=cfg(["f", "g"], 5 if q else 6, 2, False), num=160 if q else 2000,
+    sims, res = tlc.simulate(ctx, "PerFileGraphMC", cfg_text=cfg(["f", "g"], 5 if q else 6, 2, False), num=160 if q else 1200,
                              depth=16 if q else 20, seed=ctx.seed + 1, label="simulate 2 files", timeout=3000)
     behs += [beh_to_py(b) for b in sims]
-    sims, res = tlc.simulate(ctx, "PerFileGraphMC", cfg_text=cfg(["f"], 5 if q else 6, 2, True), num=40 if q else 500, depth=20, seed=ctx.seed + 2,
+    sims, res = tlc.simulate(ctx, "PerFileGraphMC", cfg_text=cfg(["f"], 5 if q else 6, 2, True), num=40 if q else 300, depth=20, seed=ctx.seed + 2,
                              label="simulate 1 file with remove / re-add", timeout=3000)
     behs += [beh_to_py(b) for b in sims]
     if not q:
-        sims, res = tlc.simulate(ctx, "PerFileGraphMC", cfg_text=cfg(["f"], 6, 1, False), num=500, depth=18, seed=ctx.seed + 3,
+        sims, res = tlc.simulate(ctx, "PerFileGraphMC", cfg_text=cfg(["f"], 6, 1, False), num=300, depth=18, seed=ctx.seed + 3,
                                  label="simulate 1 file, 6 revisions", timeout=3000)
         behs += [beh_to_py(b) for b in sims]
     behs = [(k < ncover, b) for k, b in enumerate(behs) if len(b[-1][1]["P"]) > 1]
@@ -297,7 +297,7 @@ def run(ctx):
             ctx.violation("law:%s:%s:%s" % (law, meta["format"], "merge-history" if merges else "linear-history"),
                           "law %s fails on %s history %s: last-changed %s, file parents %s, check: %s" % (
                               law, meta["format"], row["c"]["P"], row["impl"]["fv"], row["impl"]["fp"], row["impl"]["check"]), row)
-    ctx.rule("behaviours = transition cover of TLC's state graph (1 file + directory, 3 revisions; quick 50, thorough 2500 of the paths) + TLC -simulate runs (2 files + "
+    ctx.rule("behaviours = transition cover of TLC's state graph (1 file + directory, 3 revisions; quick 50, thorough 1500 of the paths) + TLC -simulate runs (2 files + "
              "directory, <= 5 revisions quick / 6 thorough, <= 2 edits per commit) over modify / move / chmod / directory rename / commit / "
              "merge any missing revision with a per-file THIS-or-OTHER choice / pull on two branches (plus remove / re-add runs); each replayed on 2a and pack-0.92; "
              "evaluations = revisions read back; non-trivial = history with at least one merge revision")
